@@ -765,8 +765,10 @@ def roi_from_points(
 
     ny, nx = shape
 
-    _in = np.floor(xy.min(axis=0)).astype("int32") - padding
-    _out = np.ceil(xy.max(axis=0)).astype("int32") + padding
+    # clip in floating point first: casting values beyond the int32 range is undefined
+    lim = float(1 << 30)
+    _in = np.clip(np.floor(xy.min(axis=0)), -lim, lim).astype("int32") - padding
+    _out = np.clip(np.ceil(xy.max(axis=0)), -lim, lim).astype("int32") + padding
 
     if align is not None:
         _in = align_down(_in, align)
